@@ -2,7 +2,7 @@
 import os, re
 from vlib.mir import norm, loc_str, op_place, switch_info, explore
 from vlib.traversal import Traversal, snake
-from vlib.facts import REPO
+from vlib import facts as _facts
 
 A = "ironplc_analyzer::"
 # rule module -> published problem codes it may (and must) emit: from the module docs and docs/compiler/problems
@@ -151,8 +151,8 @@ def rule_code(ctx, rep):
             if (mod, v) not in seen:
                 r.finding("%s|Problem::%s|never-constructed" % (mod, v), None, "published code %s of %s is never constructed: the rule cannot report it" % (v, mod))
     # csv <-> docs
-    csv = os.path.join(REPO, "compiler", "problems", "resources", "problem-codes.csv")
-    docs = os.path.join(REPO, "docs", "compiler", "problems")
+    csv = os.path.join(_facts.REPO, "compiler", "problems", "resources", "problem-codes.csv")
+    docs = os.path.join(_facts.REPO, "docs", "compiler", "problems")
     rows = [l.strip().split(",") for l in open(csv).read().splitlines()[1:] if l.strip()]
     names = {row[1]: row[0] for row in rows}
     for code, name in sorted((row[0], row[1]) for row in rows):
